@@ -37,6 +37,9 @@ fn main() {
                 let mut cfg = xplor::default_cfg(&mut rng, &scalars);
                 cfg.unreachable_blocks = rng.chance(1, 5);
                 cfg.allow_mem = rng.chance(3, 4);
+                // dominance-sensitive shapes need room: joins fed by arms of different length
+                cfg.max_blocks = rng.range(4, 9) as usize;
+                cfg.max_ins = 2;
                 let function = fv::gen::function(&mut rng, &cfg, 0x1000);
                 let x = XProg {
                     function, scalars: scalars.clone(), big: rng.bool(), mem_base: 0x2000,
